@@ -102,6 +102,11 @@ extern long vh_alloc_count;       /* in-library allocation requests so far */
 extern long vh_live_blocks;       /* blocks allocated in-library and not yet freed */
 extern long vh_live_bytes;
 extern int vh_alloc_log;          /* log every in-library request to stderr-fd file */
+#define VH_MAXCALLS 4096
+typedef struct { char kind; long size; } vh_acall_t;
+extern int vh_track;              /* record every wrapped allocator call (kind, size) and keep a live-pointer table */
+extern vh_acall_t vh_calls[VH_MAXCALLS];
+extern int vh_ncalls, vh_badfree;
 void *vh_xmalloc(size_t n);
 void vh_xfree(void *p);
 
